@@ -359,7 +359,7 @@ class Negative(Term):
         return self.term.is_aggregate
 
     def get_sql(self, ctx: SqlContext) -> str:
-        return "-{term}".format(term=self.term.get_sql(ctx))
+        return "-{term}".format(term=self.term.get_sql(ctx.copy(with_alias=False)))
 
 
 class ValueWrapper(Term):
@@ -686,7 +686,8 @@ class Tuple(Criterion):
             yield from value.nodes_()
 
     def get_sql(self, ctx: SqlContext) -> str:
-        sql = "({})".format(",".join(term.get_sql(ctx) for term in self.values))
+        value_ctx = ctx.copy(with_alias=False)
+        sql = "({})".format(",".join(term.get_sql(value_ctx) for term in self.values))
         return format_alias_sql(sql, self.alias, ctx)
 
     @property
@@ -719,7 +720,8 @@ class Array(Tuple):
         if ctx.parameterizer is None or not ctx.parameterizer.should_parameterize(
             self.original_value
         ):
-            values = ",".join(term.get_sql(ctx) for term in self.values)
+            value_ctx = ctx.copy(with_alias=False)
+            values = ",".join(term.get_sql(value_ctx) for term in self.values)
 
             sql = "[{}]".format(values)
             if ctx.dialect in (Dialects.POSTGRESQL, Dialects.REDSHIFT):
@@ -784,12 +786,13 @@ class NestedCriterion(Criterion):
         self.nested = self.nested.replace_table(current_table, new_table)
 
     def get_sql(self, ctx: SqlContext) -> str:
+        operand_ctx = ctx.copy(with_alias=False)
         sql = "{left}{comparator}{right}{nested_comparator}{nested}".format(
-            left=self.left.get_sql(ctx),
+            left=self.left.get_sql(operand_ctx),
             comparator=self.comparator.value,
-            right=self.right.get_sql(ctx),
+            right=self.right.get_sql(operand_ctx),
             nested_comparator=self.nested_comparator.value,  # type:ignore[attr-defined]
-            nested=self.nested.get_sql(ctx),
+            nested=self.nested.get_sql(operand_ctx),
         )
 
         if ctx.with_alias:
@@ -852,10 +855,11 @@ class BasicCriterion(Criterion):
         self.right = self.right.replace_table(current_table, new_table)
 
     def get_sql(self, ctx: SqlContext) -> str:
+        operand_ctx = ctx.copy(with_alias=False)
         sql = "{left}{comparator}{right}".format(
             comparator=self.comparator.value,
-            left=self.left.get_sql(ctx),
-            right=self.right.get_sql(ctx),
+            left=self.left.get_sql(operand_ctx),
+            right=self.right.get_sql(operand_ctx),
         )
         if ctx.with_alias:
             return format_alias_sql(sql, self.alias, ctx)
@@ -906,9 +910,9 @@ class ContainsCriterion(Criterion):
         self.container = self.container.replace_table(current_table, new_table)
 
     def get_sql(self, ctx: SqlContext) -> str:
-        container_ctx = ctx.copy(subquery=True)
+        container_ctx = ctx.copy(subquery=True, with_alias=False)
         sql = "{term} {not_}IN {container}".format(
-            term=self.term.get_sql(ctx),
+            term=self.term.get_sql(ctx.copy(with_alias=False)),
             container=self.container.get_sql(container_ctx),
             not_="NOT " if self._is_negated else "",
         )
@@ -958,20 +962,22 @@ class BetweenCriterion(RangeCriterion):
 
     def get_sql(self, ctx: SqlContext) -> str:
         # FIXME escape
+        operand_ctx = ctx.copy(with_alias=False)
         sql = "{term} BETWEEN {start} AND {end}".format(
-            term=self.term.get_sql(ctx),
-            start=self.start.get_sql(ctx),
-            end=self.end.get_sql(ctx),
+            term=self.term.get_sql(operand_ctx),
+            start=self.start.get_sql(operand_ctx),
+            end=self.end.get_sql(operand_ctx),
         )
         return format_alias_sql(sql, self.alias, ctx)
 
 
 class PeriodCriterion(RangeCriterion):
     def get_sql(self, ctx: SqlContext) -> str:
+        operand_ctx = ctx.copy(with_alias=False)
         sql = "{term} FROM {start} TO {end}".format(
-            term=self.term.get_sql(ctx),
-            start=self.start.get_sql(ctx),
-            end=self.end.get_sql(ctx),
+            term=self.term.get_sql(operand_ctx),
+            start=self.start.get_sql(operand_ctx),
+            end=self.end.get_sql(operand_ctx),
         )
         return format_alias_sql(sql, self.alias, ctx)
 
@@ -1004,9 +1010,10 @@ class BitwiseAndCriterion(Criterion):
         self.term = self.term.replace_table(current_table, new_table)
 
     def get_sql(self, ctx: SqlContext) -> str:
+        operand_ctx = ctx.copy(with_alias=False)
         sql = "({term} & {value})".format(
-            term=self.term.get_sql(ctx),
-            value=self.value.get_sql(ctx),
+            term=self.term.get_sql(operand_ctx),
+            value=self.value.get_sql(operand_ctx),
         )
         return format_alias_sql(sql, self.alias, ctx)
 
@@ -1038,15 +1045,15 @@ class NullCriterion(Criterion):
 
     def get_sql(self, ctx: SqlContext) -> str:
         sql = "{term} IS NULL".format(
-            term=self.term.get_sql(ctx),
+            term=self.term.get_sql(ctx.copy(with_alias=False)),
         )
         return format_alias_sql(sql, self.alias, ctx)
 
 
 class ComplexCriterion(BasicCriterion):
     def get_sql(self, ctx: SqlContext) -> str:
-        left_ctx = ctx.copy(subcriterion=self.needs_brackets(self.left))
-        right_ctx = ctx.copy(subcriterion=self.needs_brackets(self.right))
+        left_ctx = ctx.copy(subcriterion=self.needs_brackets(self.left), with_alias=False)
+        right_ctx = ctx.copy(subcriterion=self.needs_brackets(self.right), with_alias=False)
         sql = "{left} {comparator} {right}".format(
             comparator=self.comparator.value,
             left=self.left.get_sql(left_ctx),
@@ -1165,14 +1172,15 @@ class ArithmeticExpression(Term):
 
     def get_sql(self, ctx: SqlContext) -> str:
         left_op, right_op = [getattr(side, "operator", None) for side in [self.left, self.right]]
+        operand_ctx = ctx.copy(with_alias=False)
 
         arithmetic_sql = "{left}{operator}{right}".format(
             operator=self.operator.value,
             left=("({})" if self.left_needs_parens(self.operator, left_op) else "{}").format(
-                self.left.get_sql(ctx)
+                self.left.get_sql(operand_ctx)
             ),
             right=("({})" if self.right_needs_parens(self.operator, right_op) else "{}").format(
-                self.right.get_sql(ctx)
+                self.right.get_sql(operand_ctx)
             ),
         )
 
@@ -1268,7 +1276,7 @@ class Not(Criterion):
         yield from self.term.nodes_()
 
     def get_sql(self, ctx: SqlContext) -> str:
-        not_ctx = ctx.copy(subcriterion=True)
+        not_ctx = ctx.copy(subcriterion=True, with_alias=False)
         sql = "NOT {term}".format(term=self.term.get_sql(not_ctx))
         return format_alias_sql(sql, self.alias, ctx)
 
@@ -1318,7 +1326,7 @@ class All(Criterion):
         yield from self.term.nodes_()
 
     def get_sql(self, ctx: SqlContext) -> str:
-        sql = "{term} ALL".format(term=self.term.get_sql(ctx))
+        sql = "{term} ALL".format(term=self.term.get_sql(ctx.copy(with_alias=False)))
         return format_alias_sql(sql, self.alias, ctx)
 
 
@@ -1437,7 +1445,8 @@ class AggregateFunction(Function):
 
     def get_filter_sql(self, ctx: SqlContext) -> str:  # type:ignore[return]
         if self._include_filter:
-            criterions = Criterion.all(self._filters).get_sql(ctx)  # type:ignore[attr-defined]
+            filter_ctx = ctx.copy(with_alias=False)
+            criterions = Criterion.all(self._filters).get_sql(filter_ctx)  # type:ignore[attr-defined]
             return f"WHERE {criterions}"
         # TODO: handle case of `not self._include_filter`
 
@@ -1484,6 +1493,7 @@ class AnalyticFunction(AggregateFunction):
 
     def get_partition_sql(self, ctx: SqlContext) -> str:
         terms = []
+        ctx = ctx.copy(with_alias=False)
         if self._partition:
             terms.append(
                 "PARTITION BY {args}".format(
@@ -1741,7 +1751,7 @@ class AtTimezone(Term):
 
     def get_sql(self, ctx: SqlContext) -> str:
         sql = "{name} AT TIME ZONE {interval}'{zone}'".format(
-            name=self.field.get_sql(ctx),
+            name=self.field.get_sql(ctx.copy(with_alias=False)),
             interval="INTERVAL " if self.interval else "",
             zone=self.zone,
         )
